@@ -312,6 +312,9 @@ def add_cds_feature(
     location = transcript.cds.chunk_relative_location.to_biopython()
     feature = SeqFeature(location, type=GeneIntervalFeatures.CDS.value, strand=strand.value)
     feature.qualifiers = transcript_qualifiers
+    # GenBank carries the reading frame only as the offset of the first complete codon
+    start_frame = next(transcript.cds._frame_iter(chunk_relative_frames=False))
+    feature.qualifiers[KnownQualifiers.CODON_START.value] = [start_frame.value + 1]
 
     if update_translations:
         # if the sequence has N's, we cannot translate
